@@ -35,8 +35,8 @@ warnings.simplefilter('ignore')
 R = Run('class forests of <= 6 nodes (thorough 7; depth <= 5, fan-out <= 4, all shapes) x accepted creation orders '
         '(all for <= 4 nodes, else DFS/BFS/reversed + seeded samples) x differently-cased names: EnumerateClassNames/'
         'EnumerateClasses (every class + None x DeepInheritance None/F/T), EnumerateInstanceNames/EnumerateInstances, '
-        'DeleteClass of every class (+ re-creation); element resolution over chains of depth <= 5 (quick: <= 3 '
-        'exhaustive + seeded sample of 4..5): every declare/override pattern of a property, method, parameter or '
+        'DeleteClass of every class (+ re-creation); element resolution over chains of depth <= 5 (exhaustive to depth '
+        '3, thorough 4; seeded sample above): every declare/override pattern of a property, method, parameter or '
         'class-level slot x 13 qualifier flavor kinds (ToSubclass/Restricted/unset x Enable/DisableOverride/unset on '
         'the declaration, 4 set on the qualifier use) x per declaring level qualifier absent/new value/same value, '
         'via CreateClass, MOF compilation and ModifyClass of the leaf; must-reject cases (DisableOverride change, '
